@@ -218,7 +218,11 @@ def apply(op, s: State, v: Verdict):
         obj = lib_item(item, s)
         acl.append(obj)
         tops = list(acl.items)
-        first = next(k for k, o in enumerate(tops) if type(o) is type(obj) and o.line == obj.line)
+        first = next((k for k, o in enumerate(tops) if type(o) is type(obj) and o.line == obj.line), None)
+        if first is None:
+            # the appended entry is not a top-level item afterwards (absorbed into a block, dropped, or re-typed)
+            v.fail("op:append:new-item-not-at-top-level", {"appended": obj.line, "after": [f"{type(o).__name__}:{o.line}" for o in tops]})
+            return name
         acl.remove(obj)
         if len(acl.items) != len(tops) - 1 or any(a is not b for a, b in zip(acl.items, tops[:first] + tops[first + 1:])):
             v.fail("op:remove-by-value:took-another-item", {"removed_text": obj.line, "before": [o.line for o in tops],
